@@ -8,12 +8,14 @@ except ImportError:
     maptrie = None
 
 ID = "C18"
-EXTRA_COQ_TARGETS = ["Extract_C17"]
+EXTRA_COQ_TARGETS = ["Extract_C17"] + (["Extract_C17T"] if maptrie else [])
 KINDS = ["h", "s"]
 
 
 def prebuild():
     maphs.build()
+    if maptrie and hasattr(maptrie, "prebuild"):
+        maptrie.prebuild()
 
 
 def cases(ctx):
